@@ -63,7 +63,7 @@ struct alignas(A) TR {
 };
 static_assert(std::is_trivial_v<TR<int, 4>> && !std::is_trivially_default_constructible_v<NT<int, 4>>);
 
-static auto val(int i) -> int { return 3 * i + 5; }
+static auto val(int i) -> int { return (3 * i + 5) % 100; }
 
 struct Report {
     long mis     = 0;   // slot addresses that are not a multiple of alignof(T)
@@ -198,6 +198,18 @@ struct FamFun {
     static auto value(V const& v, int /*i*/) -> long { return static_cast<long>(v(1)); }
 };
 
+// compiler barrier: everything stored so far is considered read, the pointer's origin is forgotten.  Needed because g++ 12.2
+// -O2 otherwise deletes the initialising stores of a container that is nested in another container's raw storage (the
+// zero-initialisation of the inner object is "redundant" after the outer one's, the outer one's is then "dead" by type-based
+// aliasing once the explicit destructor call follows): seen with static_vector<static_vector<T, 1>, 2>, placement 9 -- a
+// compiler problem (gone with -fno-lifetime-dse / -fno-ipa-modref / -fno-tree-dse), not a library one
+template <typename P>
+static auto opaque(P* p) -> P*
+{
+    asm volatile("" : "+r"(p) : : "memory");
+    return p;
+}
+
 // ---- filling, reading back, copying ----------------------------------------------------------------------------------
 template <typename F>
 static void scan(typename F::V const& v, Report& r, bool record)
@@ -235,6 +247,7 @@ template <typename F>
         scan<F>(v, r, false);
     }
     F::unfill(v);
+    (void)opaque(&v);
 }
 
 // ---- placements ------------------------------------------------------------------------------------------------------
@@ -265,7 +278,7 @@ static auto in_arena() -> O*
 {
     static_assert(sizeof(O) <= sizeof g_arena && alignof(O) <= 256);
     std::memset(g_arena, 0xEE, sizeof g_arena);
-    return ::new (static_cast<void*>(g_arena)) O();
+    return opaque(::new (static_cast<void*>(opaque(static_cast<unsigned char*>(g_arena)))) O());
 }
 static auto arena_offset(void const* p) -> long { return static_cast<long>(static_cast<unsigned char const*>(p) - g_arena); }
 
@@ -301,7 +314,7 @@ static auto place(int p, Report& r, long& poff) -> bool
     case 3: {   // the least aligned legal address: arena + alignof(V), arena being 256-aligned
         static_assert(sizeof(V) + alignof(V) <= sizeof g_arena && alignof(V) < 256);
         std::memset(g_arena, 0xEE, sizeof g_arena);
-        V* v = ::new (static_cast<void*>(g_arena + alignof(V))) V();
+        V* v = opaque(::new (static_cast<void*>(opaque(static_cast<unsigned char*>(g_arena)) + alignof(V))) V());
         poff = arena_offset(v);
         exercise<F>(*v, r);
         v->~V();
@@ -337,6 +350,7 @@ static auto place(int p, Report& r, long& poff) -> bool
             (void)o->v.try_emplace_back();
             (void)o->v.try_emplace_back();
             if (o->v.size() != 2) { return false; }
+            o = opaque(o);
             poff = arena_offset(o->v.data() + 1);
             exercise<F>(o->v[1], r);
             o->~O();
@@ -348,6 +362,7 @@ static auto place(int p, Report& r, long& poff) -> bool
             using O = BehindChar<etl::optional<V>>;
             auto* o = in_arena<O>();
             o->v.emplace();
+            o = opaque(o);
             poff = arena_offset(&*o->v);
             exercise<F>(*o->v, r);
             o->~O();
@@ -360,6 +375,7 @@ static auto place(int p, Report& r, long& poff) -> bool
             auto* o = in_arena<O>();
             o->v.emplace_back();
             o->v.emplace_back();
+            o = opaque(o);
             poff = arena_offset(&o->v[1]);
             exercise<F>(o->v[1], r);
             o->~O();
